@@ -338,6 +338,35 @@ func c13(x *mon.Ctx) {
 		t[i] = elem
 		return world.Seq(t...)
 	}
+	// the second encoding the library accepts for PPID / PCE-ID / FMSPC: an OCTET STRING whose content is the DER of another
+	// OCTET STRING. Right-sized inner strings are exact; a wrongly sized inner string, or bytes behind it, is an error —
+	// never an empty value
+	for ti, tgt := range []struct {
+		name string
+		idx  int
+		val  []byte
+	}{{"ppid", 0, base.PPID[:]}, {"pceid", 2, base.PceID[:]}, {"fmspc", 3, base.FMSPC[:]}} {
+		std := mkTop(tcbE)
+		oid := std[tgt.idx][2 : 4+int(std[tgt.idx][3])] // the element's OID TLV
+		nest := func(inner []byte) []byte { return world.Seq(oid, world.Octets(inner)) }
+		add("nested-octet-string", tgt.name+"/right-size", "exact", base, withTop(tgt.idx, nest(world.Octets(tgt.val))), nil)
+		for _, bad := range []struct {
+			name  string
+			inner []byte
+		}{
+			{"inner-one-short", world.Octets(tgt.val[:len(tgt.val)-1])},
+			{"inner-one-long", world.Octets(append(append([]byte{}, tgt.val...), 0))},
+			{"inner-empty", world.Octets(nil)},
+			{"inner-doubled", world.Octets(append(append([]byte{}, tgt.val...), tgt.val...))},
+			{"bytes-behind-inner", append(world.Octets(tgt.val), 0x05, 0x00)},
+			{"inner-is-integer", world.Int(int64(ti + 1))},
+		} {
+			if len(bad.inner) == len(tgt.val) {
+				continue // content of exactly the element's size is the element's value, whatever it looks like
+			}
+			add("nested-octet-string", tgt.name+"/"+bad.name, "error", base, withTop(tgt.idx, nest(bad.inner)), nil)
+		}
+	}
 	for _, pos := range []int{0, 7, 15} {
 		for _, v := range []int64{256, 257, 65535, 1 << 31, -1, -128, -129} {
 			add("component-out-of-range", fmt.Sprintf("comp%d=%d", pos+1, v), "error", base, withTcb(pos, world.Seq(world.OID(2, pos+1), world.Int(v))), nil)
@@ -612,6 +641,7 @@ func c13(x *mon.Ctx) {
 	x.Require("identical-duplicate-element", 0, 0, 48)
 	x.Require("tcb-element-order", 1000, 0, 1000)
 	x.Require("component-out-of-range", 0, 21, 21)
+	x.Require("nested-octet-string", 3, 16, 20)
 	x.Require("value-identifier-octet", 0, 1700, 1700)
 	x.Require("platform-certificate-extension", 40, 0, 40)
 	x.Require("platform-certificate-wrong-type", 0, 105, 105)
